@@ -286,7 +286,7 @@ pub fn run(ctx: &Ctx, rep: &mut Report) {
     }
     if rep.failures.is_empty() {
         let ws_port = transport::start_ws(srv.node.dbs.clone());
-        let n = ctx.amount(320, 6000);
+        let n = ctx.amount(160, 6000);
         explore(ctx, rep, "websocket-frames", n, case_strategy(), |c| run_ws_case(&srv, ws_port, c));
     }
 }
